@@ -5,6 +5,10 @@ Correspondence: the same programs run on binary64 inside Coq (vm_compute) agains
 implementation's sign-/basis-invariant outputs for every generated fit; the LAPACK oracles
 are numpy decompositions of the matrices the model forms, their hypotheses' residuals are
 evaluated on the float side and recorded.
+
+Extension (round 3, harness/c14_ext.py): family `solvers` (arpack / randomized / auto /
+n_components=None through the same programs) and the exact layer-D family `fitctl`
+(coq/Model/PCovRFit.v: control flow, raised errors and shape book-keeping of fit).
 """
 import warnings
 
@@ -12,6 +16,7 @@ import numpy as np
 
 from harness import common as C
 from harness import pcovr_common as P
+from harness import c14_ext as X
 
 MAX_REPORTS = 25          # replay files written per run (a broken tree fails hundreds of cases)
 
@@ -28,7 +33,7 @@ KEY_PRE1D = "pcovr_precomputed_1d_y_sample_space"
 def gen_groups(ctx):
     """A group = one dataset, one regressor, one mixing, one space, every k."""
     rng = ctx.rng
-    ngroups = 140 if ctx.quick else 900
+    ngroups = 190 if ctx.quick else 900
     groups = []
     fams = list(P.FAMILIES)
     for gi in range(ngroups):
@@ -43,12 +48,17 @@ def gen_groups(ctx):
         for sp in spaces:
             cfgs = [dict(base, space=sp, k=k) for k in range(1, kmax + 1)]
             groups.append((ds, cfgs))
+    # extension (round 3): truncated / automatic solvers and n_components=None through the same model
+    groups.extend(X.gen_solver_groups(rng, ctx.quick))
+    # data in small units: eigenvalues of X^T X between rcond and 1e-6
+    groups.extend(X.gen_smallunit_groups(rng, ctx.quick))
     return groups
 
 
 def run_fit(ds, cfg):
     try:
-        est, Ym, Yh, W = P.fit_impl(ds, cfg)
+        # k_default: n_components=None is passed; cfg["k"] then holds the resolved n_components_
+        est, Ym, Yh, W = P.fit_impl(ds, dict(cfg, k=None) if cfg.get("k_default") else cfg)
     except Exception as e:                      # noqa
         return dict(error=type(e).__name__, error_msg=str(e)[:200])
     try:
@@ -165,7 +175,8 @@ def run(ctx):
     cases = {}                       # id -> (ds, cfg, rec, gate, S_full)
     stats = dict(families={}, spaces={}, regressors={}, mixing={"0": 0, "1": 0, "interior": 0},
                  y1d=0, masked_components=0, skipped={}, fit_errors=0, k_hist={},
-                 not_centred=0)
+                 not_centred=0, solvers={}, fit_svd_solver_={}, default_components=0,
+                 smallunit_fits_with_eigenvalue_in_cutoff_window=0)
     cid = 0
     nested_viol = []
     for ds, cfgs in groups:
@@ -174,9 +185,17 @@ def run(ctx):
             rec = run_fit(ds, cfg)
             g, S_full = None, None
             if "error" not in rec:
+                if cfg.get("k_default"):
+                    cfg["k"] = int(rec["est"].n_components_)
+                    stats["default_components"] += 1
                 sample = P.is_sample(ds, cfg)
                 env, mn, S_full, _ = P.build_env(ds, rec["Ym"], rec["Yh"], rec["W"], cfg, sample)
                 g = P.gate(mn, S_full, cfg["k"], sample=sample) or P.regressor_gate(ds["X"], rec["W"], rec["Yh"])
+                if g is None and cfg["solver"] != "full":
+                    g = X.solver_gate(S_full, cfg["k"])
+                stats["solvers"][cfg["solver"]] = stats["solvers"].get(cfg["solver"], 0) + 1
+                fs = rec["est"].fit_svd_solver_
+                stats["fit_svd_solver_"][fs] = stats["fit_svd_solver_"].get(fs, 0) + 1
                 if g is None:
                     writer.add(cid, ds["n"], ds["m"], ds["p"], cfg["k"], ds["q"], sample, env, rec["obs"])
                 else:
@@ -194,11 +213,20 @@ def run(ctx):
             stats["mixing"]["0" if cfg["a"] == 0 else "1" if cfg["a"] == 1 else "interior"] += 1
             stats["y1d"] += cfg["y1d"]
             stats["not_centred"] += not ds["centred"]
-            stats["k_hist"][cfg["k"]] = stats["k_hist"].get(cfg["k"], 0) + 1
+            if ds["family"] == "smallunit" and g is None and "error" not in rec and not P.is_sample(ds, cfg):
+                stats["smallunit_fits_with_eigenvalue_in_cutoff_window"] += int(X.in_cutoff_window(ds["X"]))
+            stats["k_hist"][str(cfg["k"])] = stats["k_hist"].get(str(cfg["k"]), 0) + 1
         nv = oracle_nested(ds, cfgs, recs, gates)
         if nv:
             nested_viol.append((ds, nv[0], nv[1]))
+    # extension (round 3): histories of one estimator object (refits); every stage is also a case of
+    # the Coq single-fit model and of the oracle below
+    cid, hist_reports, refit_stats = X.run_histories(ctx, writer, cases, cid)
     reports, broken, _ = P.run_cases(ctx.prop, writer)
+    # extension (round 3): control flow and shape book-keeping of fit (layer D, exact)
+    fitctl_stats, fitctl_agree = X.run_fitctl(ctx, report)
+    for what, robj, found in hist_reports:
+        report(ctx, what, robj, found_input=found)
     # verdicts
     dev_max = [0.0] * len(P.OUTPUT_NAMES)
     res_max = [0.0] * len(P.RESIDUAL_NAMES)
@@ -249,7 +277,7 @@ def run(ctx):
     seen = set()
     for c, (ds, cfg, rec, g, S_full) in cases.items():
         if c in reports and cfg["a"] > 0 and S_full is not None and cfg["k"] < P.numeric_rank(S_full):
-            h = (ds["X"].tobytes(), cfg["a"], cfg["k"], cfg["space"], cfg["reg"], cfg["alpha"], cfg["y1d"])
+            h = (ds["X"].tobytes(), cfg["a"], cfg["k"], cfg["space"], cfg["reg"], cfg["alpha"], cfg["y1d"], cfg["solver"])
             if h not in seen:
                 nontrivial += 1
             seen.add(h)
@@ -263,10 +291,12 @@ def run(ctx):
                theorems=po["theorems"], axioms=po["axioms"],
                trusted_base=C.TRUSTED_BASE_COMMON + [
                    "binary64 evaluation of the model (Coq PrimFloat) agrees with the real-closed-field semantics up to rounding: compared with rtol %g" % P.RTOL,
-                   "numpy eigh/svd/lstsq answers are accepted as oracle hints only after their hypotheses' residuals are checked on the float side (eps %g)" % P.EPS_HYP],
-               evaluations=len(cases), distinct_nontrivial=nontrivial,
-               rule="centred/offset X of families %s, every k, both spaces; non-trivial = distinct fit compared inside Coq with mixing > 0 and k < numeric rank of the modified matrix" % ",".join(P.FAMILIES),
-               traces_validated_against_impl=agree,
+                   "numpy eigh/svd/lstsq answers are accepted as oracle hints only after their hypotheses' residuals are checked on the float side (eps %g)" % P.EPS_HYP,
+                   "layer-D model coq/Model/PCovRFit.v of fit's control flow and shapes: tied by the exact family fitctl (error kind recognised by message; sklearn's coef_ shape is an oracle contract checked per run)"],
+               evaluations=len(cases) + fitctl_stats["cases"], distinct_nontrivial=nontrivial,
+               fitctl=fitctl_stats, refit=refit_stats,
+               rule="centred/offset X of families %s, every k, both spaces; non-trivial = distinct fit compared inside Coq with mixing > 0 and k < numeric rank of the modified matrix (solvers full/arpack/randomized/auto); the fitctl configurations are counted in evaluations only" % ",".join(P.FAMILIES),
+               traces_validated_against_impl=agree + fitctl_agree,
                samples=[dict(case=case_replay(cases[i][0], cases[i][1]), report=reports[i]) for i in sample_ids],
                distribution=stats, anchor_drift=changed, oracle_runs=n_search,
                tolerances=dict(rtol=P.RTOL, atol=P.ATOL, eps_hypotheses=P.EPS_HYP, gap_min=P.GAP_MIN))
@@ -278,8 +308,20 @@ def run(ctx):
 
 def replay(ctx, obj):
     c = obj["case"]
+    if "refit" in c:
+        msg = X.replay_refit(c["refit"])
+        print("replay:", msg or "property holds on this input now")
+        return 1 if msg else 0
+    if "fitctl" in c:
+        msg = X.replay_fitctl(c["fitctl"])
+        print("replay:", msg or "property holds on this input now")
+        return 1 if msg else 0
     ds = P.ds_from_json(c["dataset"])
     cfg = c["config"]
+    if cfg.get("refit"):
+        msg = X.replay_refit(cfg["refit"])
+        print("replay:", msg or "property holds on this input now")
+        return 1 if msg else 0
     if c.get("nested") or obj.get("nested"):
         kmax = min(ds["n"], ds["m"])
         cfgs = [dict(cfg, k=k) for k in range(1, kmax + 1)]
